@@ -13,6 +13,7 @@ extern crate alloc;
 mod shared;
 
 mod common;
+mod dur;
 mod c01;
 mod c02;
 mod c19;
@@ -70,6 +71,7 @@ fn dispatch(driver: &str, a: &Args) {
         "c07" => civ::run_c07(&a),
         "c09" => text::run_c09(&a),
         "c12" => val::run(&a),
+        "c15" => dur::run(&a),
         "c19replay" => c19::run_replay(&a),
         "c20" => c20::run(&a),
         "c20fixed" => c20::run_fixed(&a),
